@@ -709,6 +709,79 @@ pub fn enumerate(thorough: bool, part: usize, _parts: usize, sink: &mut crate::r
         }
         sink.case(&o, true, || "scale case: one manager holding 30000 two-letter word terms (ids beyond 2^16), membership of every term re-checked on a warm cache".to_string());
     }
+    // a long history of explorations (emptiness tests, enumerations, compilations of unrelated terms) on one
+    // manager: what the manager answers about an old term must not depend on how many explorations
+    // happened since (visit stamps, epochs and generation counters that wrap)
+    {
+        let mut o = Outcome::default();
+        let res = catch(|| {
+            let mut fails: Vec<(String, String)> = Vec::new();
+            let mut m = ReManager::new();
+            let abc = m.str(&SmtStringOf(&[0x61, 0x62, 0x63]));
+            let full = m.full();
+            let t1 = m.concat(abc, full); // abc Sigma*
+            let ab = m.str(&SmtStringOf(&[0x61, 0x62]));
+            let t2 = m.star(ab); // (ab)*
+            let observe = |m: &mut ReManager| -> (bool, usize, usize, bool, bool, usize, usize) {
+                (m.is_empty_re(t1), m.iter_derivatives(t1).count(), m.compile(t1).num_states(), m.start_char(t1, 0x61), m.is_empty_re(abc), m.iter_derivatives(t2).count(), m.compile(t2).num_states())
+            };
+            let first = observe(&mut m);
+            if first != (false, 5, 5, true, false, 3, 3) {
+                fails.push(("C07/language-depends-on-history".into(), format!("fresh manager: observations on abc.Sigma* and (ab)* are {:?}", first)));
+                return fails;
+            }
+            let noise: Vec<RegLan> = (0..7u32).map(|i| m.char(0x70 + i)).collect();
+            let mut evals = 0u64;
+            // A stamp left on the old term by its last exploration collides with the current one only when
+            // exactly a wrap-around's worth of explorations lies between two explorations of that term:
+            // every gap around 2^8, 2^12 and 2^16 is tried (each noise call is one exploration; the window
+            // also covers implementations that spend two per call or skip the value 0)
+            let mut gaps: Vec<u32> = Vec::new();
+            for c in [256u32, 4096, 32_768, 65_536] {
+                for d in 0..=24u32 {
+                    gaps.push(c - 12 + d);
+                }
+            }
+            'outer: for (gi, &g) in gaps.iter().enumerate() {
+                for k in 0..g {
+                    let x = noise[(k % 7) as usize];
+                    match gi % 3 {
+                        0 => {
+                            let _ = m.is_empty_re(x);
+                        }
+                        1 => {
+                            let _ = m.iter_derivatives(x).count();
+                        }
+                        _ => {
+                            let _ = m.try_compile(x, 10);
+                        }
+                    }
+                }
+                evals += 7;
+                let now = observe(&mut m);
+                if now != first {
+                    fails.push(("C07/language-depends-on-history".into(), format!("after {} explorations of unrelated terms since the last look at them, the observations on abc.Sigma* and (ab)* (is_empty_re, #derivatives, #states, start_char a, is_empty_re abc, #derivatives, #states) changed from {:?} to {:?}", g, first, now)));
+                    break 'outer;
+                }
+            }
+            fails.push(("__evals".into(), evals.to_string()));
+            fails
+        });
+        match res {
+            Ok(fails) => {
+                for (c, msg) in fails {
+                    if c == "__evals" {
+                        o.evals += msg.parse::<u64>().unwrap_or(0);
+                    } else {
+                        o.fail(&c, msg);
+                    }
+                }
+            }
+            Err(msg) => o.fail("C07/panics", format!("long exploration history: {}", msg)),
+        }
+        sink.case(&o, true, || "scale case: 100 runs of 244..65548 explorations of unrelated terms on one manager, two old terms re-observed after each".to_string());
+    }
+    sink.stats.exhaustive_spaces.push("1 long-history case: abc.Sigma* and (ab)* re-observed on one manager after every number of unrelated explorations (emptiness tests / enumerations / bounded compilations) within 12 of 2^8, 2^12, 2^15 and 2^16".to_string());
     sink.stats.exhaustive_spaces.push("4 scale cases: one manager holding a term with 15 / 280 / 65792 derivative classes (every class derivative of the term and of its complement); one manager holding 30000 word terms (membership of each re-checked)".to_string());
     sink.stats.samples.push("[enum] scale case: inter_list of 257 x star(inter_list of 256 characters) -- 65792 derivative classes".to_string());
 }
